@@ -275,10 +275,15 @@ func (p *PX) resolveCall(c *ssa.Call, fr *pxFrame, st *pxState) *pxCallee {
 }
 
 // calleeOf: the function a call invokes on this path (static, or through a
-// known function value); nil when unknown.
+// function value the path knows: pxfuncs.go funcValueCallee first, then the
+// readers of frozen init-time memory); nil when unknown.  The same order as the
+// explorer's own call step (px.go).
 func (p *PX) calleeOf(c *ssa.Call, fr *pxFrame, st *pxState) *ssa.Function {
 	if sc := c.Call.StaticCallee(); sc != nil {
-		return sc
+		return p.w.unthunk(sc)
+	}
+	if fn, _, _ := p.funcValueCallee(c, fr, st); fn != nil {
+		return fn
 	}
 	if rc := p.resolveCall(c, fr, st); rc != nil {
 		return rc.fn
@@ -290,12 +295,21 @@ func (p *PX) calleeOf(c *ssa.Call, fr *pxFrame, st *pxState) *ssa.Function {
 // the function it invokes on this path (receiver first; an entry is nil where
 // the argument is not an SSA value of the calling frame).
 func (p *PX) callArgs(c *ssa.Call, fr *pxFrame, st *pxState) ([]ssa.Value, []*Term) {
-	if rc := p.resolveCall(c, fr, st); rc != nil {
-		return rc.vals, rc.args
-	}
 	var ts []*Term
 	for _, a := range c.Call.Args {
 		ts = append(ts, p.term(a, fr, st))
+	}
+	if c.Call.StaticCallee() == nil {
+		if fn, _, recv := p.funcValueCallee(c, fr, st); fn != nil {
+			if recv != nil {
+				// a method value: the receiver was bound when the value was made
+				return append([]ssa.Value{nil}, c.Call.Args...), append([]*Term{recv}, ts...)
+			}
+			return c.Call.Args, ts
+		}
+		if rc := p.resolveCall(c, fr, st); rc != nil {
+			return rc.vals, rc.args
+		}
 	}
 	return c.Call.Args, ts
 }
